@@ -369,6 +369,148 @@ def bestUpd (lt : Rat → Rat → Bool) (best : Option (Prog × Rat)) (prog : Pr
   | none => some (prog, pr)
   | some b => if lt pr b.2 then some (prog, pr) else some b
 
+/-- the state after one iteration of `__compute_max_prio__` and what the next iteration needs -/
+theorem tail_facts (E : Env S Unit Rat) (rank : NT S Unit → Nat) (H : InitHyp E rank)
+    {s s1 : St S Unit Rat} {nt : NT S Unit} {rs done rest' : AList Sym (List (Ty × S) × Unit)} {P : Sym}
+    {ra : List (Ty × S)} {best : Option (Prog × Rat)}
+    {args : List Prog} {c : AList (Prog × NT S Unit) Rat} {pr : Rat} {bb : Option (Prog × Rat)}
+    (hk1 : KInv E s1) (hmi1 : MInv E s1) (hrs : AList.lookup nt E.G.rules = some rs)
+    (hsplit : rs = done ++ (P, (ra, ())) :: rest') (hr : E.G.rule? nt P = some (ra, ()))
+    (hin : nt ∈ s1.initS) (hx1 : Ext s s1) (hlf1 : LowFrame rank (rank nt) s s1)
+    (hdone : ∀ Q ∈ AList.keys done, (MR s nt Q).isSome = true)
+    (hrest : ∀ Q ∈ AList.keys ((P, (ra, ())) :: rest'), MR s nt Q = none)
+    (hbest : best.map swapP = (entries E s nt (AList.keys done)).foldl (Heapq.bestStep (ltE E.ops)) none)
+    (hlen : args.length = ra.length)
+    (hargs : ∀ (j : Nat) m a, args[j]? = some m → ra[j]? = some a → MN s1 (argNT a) = some m)
+    (hcp : computePrio E s1.cache nt (.node P args) = some (c, pr))
+    (hbb : bb = bestUpd E.ops.lt best (Tree.node P args) pr) :
+    KInv E { s1 with cache := c, maxRule := AList.insert (nt, P) (.node P args) s1.maxRule } ∧ MInv E { s1 with cache := c, maxRule := AList.insert (nt, P) (.node P args) s1.maxRule } ∧ Ext s { s1 with cache := c, maxRule := AList.insert (nt, P) (.node P args) s1.maxRule } ∧
+    rs = (done ++ [(P, (ra, ()))]) ++ rest' ∧
+    (∀ Q ∈ AList.keys (done ++ [(P, (ra, ()))]), (MR { s1 with cache := c, maxRule := AList.insert (nt, P) (.node P args) s1.maxRule } nt Q).isSome = true) ∧
+    (∀ Q ∈ AList.keys rest', MR { s1 with cache := c, maxRule := AList.insert (nt, P) (.node P args) s1.maxRule } nt Q = none) ∧
+    bb.map swapP = (entries E { s1 with cache := c, maxRule := AList.insert (nt, P) (.node P args) s1.maxRule } nt (AList.keys (done ++ [(P, (ra, ()))]))).foldl (Heapq.bestStep (ltE E.ops)) none ∧
+    LowFrame rank (rank nt + 1) s1 { s1 with cache := c, maxRule := AList.insert (nt, P) (.node P args) s1.maxRule } ∧ gen E.G (.node P args) nt = true := by
+  have hnd := H.rows nt rs hrs
+  rw [hsplit, keys_append] at hnd
+  simp only [AList.keys, List.map_cons] at hnd
+  have hPdone : P ∉ AList.keys done := by
+    intro hm
+    have := (List.nodup_append.mp hnd).2.2 P hm P (List.mem_cons_self)
+    exact this rfl
+  have hPrest : P ∉ AList.keys rest' := (List.nodup_cons.mp (List.nodup_append.mp hnd).2.1).1
+  -- the program is derivable, its priority is the specified one
+  have hg : gen E.G (.node P args) nt = true := by
+    rw [gen, hr]
+    exact genList_of_pointwise E.G args ra hlen (fun j m a hj ha => hmi1.nt_gen _ m (hargs j m a hj ha))
+  obtain ⟨hv, hcc⟩ := computePrio_spec E _ hmi1.cache_ok nt _ hg c pr hcp
+  have hMRs1 : MR s1 nt P = none := by
+    rw [(hlf1 nt (Nat.le_refl _)).2 P]; exact hrest P (by simp [AList.keys])
+  have hMN1 : MN s1 nt = none := hk1.prog_init nt hin
+  -- the new state
+  have hMR2 : ∀ x Q, MR { s1 with cache := c, maxRule := AList.insert (nt, P) (.node P args) s1.maxRule } x Q =
+      if (x, Q) = (nt, P) then some (.node P args) else MR s1 x Q := by
+    intro x Q
+    show AList.lookup (x, Q) (AList.insert (nt, P) _ s1.maxRule) = _
+    rw [AList.lookup_insert]
+  have hx2 : Ext s1 { s1 with cache := c, maxRule := AList.insert (nt, P) (.node P args) s1.maxRule } := by
+    refine ⟨fun _ _ h => h, ?_⟩
+    intro x Q p hm
+    rw [hMR2]
+    split
+    · rename_i heq; cases heq; rw [hMRs1] at hm; cases hm
+    · exact hm
+  have hk2 : KInv E { s1 with cache := c, maxRule := AList.insert (nt, P) (.node P args) s1.maxRule } := by
+    refine ⟨?_, ?_, hk1.prog_init, ?_⟩
+    · intro x F prog ra' hm hr'
+      rw [hMR2] at hm
+      split at hm
+      · rename_i heq
+        cases heq
+        cases hm
+        rw [hr] at hr'; cases hr'
+        exact ⟨args, rfl, fun i a m ha hm => hargs i m a hm ha⟩
+      · exact hk1.sync x F prog ra' hm hr'
+    · intro x rs' m hl hm
+      have hxne : x ≠ nt := by intro e; subst e; rw [hMN1] at hm; cases hm
+      obtain ⟨h1, pr', h2⟩ := hk1.best x rs' m hl hm
+      have hsame : ∀ Q, MR { s1 with cache := c, maxRule := AList.insert (nt, P) (.node P args) s1.maxRule } x Q
+          = MR s1 x Q := by
+        intro Q; rw [hMR2]
+        have : (x, Q) ≠ (nt, P) := by intro e; cases e; exact hxne rfl
+        simp [this]
+      refine ⟨fun Q hQ => by rw [hsame]; exact h1 Q hQ, pr', ?_⟩
+      rw [entries_eq_of_MR E x _ (fun Q _ => hsame Q)]; exact h2
+    · intro x Q p hm
+      rw [hMR2] at hm
+      split at hm
+      · rename_i heq; cases heq; exact Or.inr hin
+      · exact hk1.owned x Q p hm
+  have hmi2 : MInv E { s1 with cache := c, maxRule := AList.insert (nt, P) (.node P args) s1.maxRule } := by
+    refine ⟨?_, hmi1.nt_gen, hcc⟩
+    intro x Q p hm
+    have hm' : MR { s1 with cache := c, maxRule := AList.insert (nt, P) (.node P args) s1.maxRule } x Q = some p := hm
+    rw [hMR2] at hm'
+    split at hm'
+    · rename_i heq; cases heq; cases hm'; exact hg
+    · exact hmi1.rule_gen x Q p hm'
+  have hxs2 := hx1.trans hx2
+  have hsplit' : rs = (done ++ [(P, (ra, ()))]) ++ rest' := by rw [hsplit]; simp
+  -- the processed prefix in the new state
+  have hdone2 : ∀ Q ∈ AList.keys (done ++ [(P, (ra, ()))]),
+      (MR { s1 with cache := c, maxRule := AList.insert (nt, P) (.node P args) s1.maxRule } nt Q).isSome = true := by
+    intro Q hQ
+    rw [keys_append] at hQ
+    rcases List.mem_append.mp hQ with hQ | hQ
+    · have := hdone Q hQ
+      cases hm : MR s nt Q with
+      | none => rw [hm] at this; cases this
+      | some p => rw [hxs2.2 nt Q p hm]; rfl
+    · simp only [AList.keys, List.map_cons, List.map_nil, List.mem_singleton] at hQ
+      subst hQ
+      rw [hMR2]; simp
+  have hrest2 : ∀ Q ∈ AList.keys rest',
+      MR { s1 with cache := c, maxRule := AList.insert (nt, P) (.node P args) s1.maxRule } nt Q = none := by
+    intro Q hQ
+    have hne : Q ≠ P := by intro e; subst e; exact hPrest hQ
+    rw [hMR2]
+    have : (nt, Q) ≠ (nt, P) := by intro e; cases e; exact hne rfl
+    simp only [this, if_false]
+    rw [(hlf1 nt (Nat.le_refl _)).2 Q]
+    exact hrest Q (by simp only [AList.keys, List.map_cons, List.mem_cons]; exact Or.inr hQ)
+  have hbest2 : bb.map swapP = (entries E { s1 with cache := c, maxRule := AList.insert (nt, P) (.node P args) s1.maxRule }
+      nt (AList.keys (done ++ [(P, (ra, ()))]))).foldl (Heapq.bestStep (ltE E.ops)) none := by
+    rw [keys_append, entries_append, List.foldl_append]
+    have e1 : entries E { s1 with cache := c, maxRule := AList.insert (nt, P) (.node P args) s1.maxRule } nt
+        (AList.keys done) = entries E s nt (AList.keys done) := entries_ext E hxs2 nt _ hdone
+    have e2 : entries E { s1 with cache := c, maxRule := AList.insert (nt, P) (.node P args) s1.maxRule } nt
+        (AList.keys [(P, (ra, ()))]) = [(pr, .node P args)] := by
+      unfold entries
+      simp only [AList.keys, List.map_cons, List.map_nil, List.filterMap_cons, List.filterMap_nil]
+      have : entry E { s1 with cache := c, maxRule := AList.insert (nt, P) (.node P args) s1.maxRule } nt P
+          = some (pr, .node P args) := by
+        unfold entry
+        have hm := hMR2 nt P
+        simp only [if_true] at hm
+        unfold MR at hm
+        rw [hm]
+        simp only [Option.map_some]
+        rw [hv]; rfl
+      rw [this]
+    rw [e1, e2, ← hbest, hbb]
+    simp only [List.foldl_cons, List.foldl_nil]
+    cases best with
+    | none => rfl
+    | some b =>
+      simp only [bestUpd, Option.map_some, Heapq.bestStep, ltE, swapP]
+      by_cases hlt : E.ops.lt pr b.2 = true <;> simp [hlt, swapP]
+  refine ⟨hk2, hmi2, hxs2, hsplit', hdone2, hrest2, hbest2, ?_, hg⟩
+  intro x hx
+  refine ⟨rfl, ?_⟩
+  intro Q
+  rw [hMR2]
+  have : (x, Q) ≠ (nt, P) := by intro e; cases e; omega
+  simp [this]
+
 /-- the tail of one iteration of `__compute_max_prio__`: record the program, update the best -/
 theorem stL_tail (E : Env S Unit Rat) (rank : NT S Unit → Nat) (H : InitHyp E rank) (n : Nat)
     (ihL : StL E rank n)
